@@ -13,4 +13,9 @@ for c in harness/core_harness/ harness/bevy_harness/ harness/macro_harness/; do
   [ -f "$c/Cargo.lock" ] || cp /repo/Cargo.lock "$c/Cargo.lock"
   (cd "$c" && cargo build --offline --quiet && if [ "$c" = "harness/core_harness/" ]; then cargo build --offline --quiet --release; fi)
 done
+# compiled program families (C15/C16): warm the dependency build with the placeholder case files
+if [ -f harness/macro_compiled/Cargo.toml ]; then
+  [ -f harness/macro_compiled/Cargo.lock ] || cp /repo/Cargo.lock harness/macro_compiled/Cargo.lock
+  (cd harness/macro_compiled && cargo build --offline --quiet)
+fi
 echo setup done
